@@ -141,9 +141,12 @@ def run(ck):
             continue
         pre_env = {}
         for n in walk_body(f):
-            if not (isinstance(n, ast.If) and isinstance(n.test, ast.Compare) and len(n.test.ops) == 1 and isinstance(n.test.ops[0], (ast.Gt, ast.GtE))
-                    and "max_bound" in norm(n.test.comparators[0])):
+            from sa.astutil import less_than as _lt
+            lt_ = _lt(n.test, True) if isinstance(n, ast.If) and isinstance(n.test, ast.Compare) and len(n.test.ops) == 1 else None
+            # the overflow test: <bound derived from max_bound> < <tested quantity>  (any spelling)
+            if lt_ is None or "max_bound" not in norm(lt_[0]):
                 continue
+            tested_node = lt_[1]
             # the tested quantity, with the locals defined before the test substituted
             par_body = getattr(n, "_parent", None)
             sibs = getattr(par_body, "body", []) if par_body is not None else []
@@ -151,7 +154,7 @@ def run(ck):
                 sibs = par_body.orelse
             before = sibs[:sibs.index(n)] if n in sibs else []
             env0 = straightline_env(before)
-            lhs = n.test.left
+            lhs = tested_node
             if isinstance(lhs, ast.Name) and lhs.id in env0:
                 lhs = env0[lhs.id]
             multi = any(isinstance(x, ast.BinOp) and isinstance(x.op, (ast.Mult, ast.LShift)) and (BOUNDS & set(
@@ -162,14 +165,36 @@ def run(ck):
             span_guard = any(isinstance(t, ast.If) and {"x_min", "x_max"} <= set(y.id for y in ast.walk(t.test) if isinstance(y, ast.Name))
                              for t in walk_local(ast.Module(body=n.body, type_ignores=[])))
             bad = []
-            for r_ in walk_local(ast.Module(body=n.body, type_ignores=[])):
+            # may-dependencies inside the branch: every assignment to a name (on any path of the branch) contributes
+            branch = ast.Module(body=n.body, type_ignores=[])
+            defs_in = {}
+            for a_ in ast.walk(branch):
+                if isinstance(a_, ast.Assign):
+                    for t_ in a_.targets:
+                        if isinstance(t_, ast.Name):
+                            defs_in.setdefault(t_.id, []).append(a_.value)
+                elif isinstance(a_, ast.AugAssign) and isinstance(a_.target, ast.Name):
+                    defs_in.setdefault(a_.target.id, []).append(a_.value)
+
+            def deps(name, seen):
+                out = set([name])
+                if name in seen:
+                    return out
+                seen = seen | set([name])
+                srcs = list(defs_in.get(name, []))
+                if name in env0 and name not in defs_in:
+                    srcs.append(env0[name])
+                for v_ in srcs:
+                    for z in ast.walk(v_):
+                        if isinstance(z, ast.Name):
+                            out |= deps(z.id, seen)
+                return out
+            for r_ in walk_local(branch):
                 if isinstance(r_, ast.Return) and r_.value is not None:
                     names = set()
                     for y in ast.walk(r_.value):
                         if isinstance(y, ast.Name):
-                            if y.id in env and y.id not in BOUNDS:
-                                names |= set(z.id for z in ast.walk(env[y.id]) if isinstance(z, ast.Name))
-                            names.add(y.id)
+                            names |= deps(y.id, set()) if y.id not in BOUNDS else set([y.id])
                     if names & BOUNDS:
                         bad.append("%s (uses %s)" % (norm(r_.value)[:60], sorted(names & BOUNDS)))
             ck.ob("R3", "%s:overflow-branch" % q.split(".")[-1], not bad or span_guard, mm.where(n),
